@@ -71,6 +71,24 @@ theorem C06_holdsOn_partial (files : List FileSpec) (t : Int) (asc : Bool) (orde
     unfold modelHolds
     rw [h1]; exact h3
 
+/-- the statement is insensitive to how the value type shows the payload (the harness shows the
+    parity of the file index for booleans): if the blocks satisfy it with the identity, the
+    projected blocks satisfy it with the projection -/
+theorem C06_holdsOn_proj (proj : Nat → Nat) (files : List FileSpec) (t : Int) (asc : Bool)
+    (bs : List (List (Int × Nat))) (h : holdsOn id files t asc bs = true) :
+    holdsOn proj files t asc (bs.map fun b => b.map fun p => (p.1, proj p.2)) = true := by
+  unfold holdsOn at h ⊢
+  simp only [id, beq_iff_eq] at h ⊢
+  have hid : (expected files t asc).map (fun p => (p.1, p.2)) = expected files t asc := by simp
+  rw [hid] at h
+  rw [← h]
+  unfold delivered
+  cases asc
+  · simp only [Bool.false_eq_true, if_false, List.map_map, List.map_flatten]
+    congr 1
+    simp [Function.comp_def, List.map_reverse]
+  · simp only [if_true, List.map_flatten]
+
 /-- the hypotheses are met by a non-trivial layout: three files with overlapping blocks and
     tombstones, read in both directions from the middle -/
 def exampleFiles : List FileSpec :=
